@@ -498,7 +498,17 @@ fn run_public(fxp: &PublicFixture, m: usize, findings: &mut Vec<Finding>, probes
             // third repetition, drawn WITH replacement and possibly including the padding template itself
             // (what the property says about order holds for whatever vector commit accepts)
             let with_repeats = rep % 3 == 2 && k >= 2;
-            let proofs: Vec<Proof> = if with_repeats {
+            // every third repetition (offset 1): the padding template supplied by the caller AHEAD of a real
+            // inner proof (k - 1 distinct proofs with the template at a non-last position)
+            let template_ahead = rep % 3 == 1 && k >= 2;
+            let proofs: Vec<Proof> = if template_ahead {
+                let mut idx: Vec<usize> = (0..fxp.inners.len()).collect();
+                rng.shuffle(&mut idx);
+                idx.truncate(k - 1);
+                let mut v: Vec<Proof> = idx.iter().map(|i| fxp.inners[*i].clone()).collect();
+                v.insert(rng.usize(v.len()), fxp.template.clone());
+                v
+            } else if with_repeats {
                 let mut v: Vec<Proof> = (0..k).map(|_| if rng.chance(1, 6) { fxp.template.clone() } else { fxp.inners[rng.usize(fxp.inners.len())].clone() }).collect();
                 // make sure something repeats
                 let j = rng.usize(k - 1);
@@ -514,7 +524,7 @@ fn run_public(fxp: &PublicFixture, m: usize, findings: &mut Vec<Finding>, probes
             let targets = p.verif_targets().expect("armed");
             let mut p2 = match p.commit(PublicBatchInputs { proofs: proofs.clone(), aggregator_address: BytesDigest::try_from([9u8; 32]).unwrap() }) {
                 Ok(x) => x,
-                Err(_) if with_repeats => {
+                Err(_) if with_repeats || template_ahead => {
                     // a vector with repeats may be refused (that is C14's business); rebuild the consumed prover
                     probes.inc("public_commit_with_repeats_refused");
                     prover = Some(PublicBatchProver::new(wormhole_public_batch_circuit_config(), pb.common.clone(), &pb.verifier_only, m, 1, fxp.template.clone()).unwrap_or_else(|e| harness_error(&format!("cannot rebuild the public-batch prover for M={m}: {e:#}"))));
@@ -524,6 +534,9 @@ fn run_public(fxp: &PublicFixture, m: usize, findings: &mut Vec<Finding>, probes
             };
             if with_repeats {
                 probes.inc("public_commit_with_repeats_accepted");
+            }
+            if template_ahead {
+                probes.inc("public_commit_with_template_ahead_accepted");
             }
             commits += 1;
             let pw = p2.verif_partial_witness();
